@@ -18,11 +18,28 @@ MAX_FOLD_LEN = 70000
 MAX_UNROLL = 4096
 
 
+def Purity_ways(v):
+    """names whose object the value of expression v may be / contain (see sa/purity.py)"""
+    from .purity import Purity
+    return [w.id for w in Purity._ways_in(v) if isinstance(w, ast.Name)]      # x itself, not x.a / x[i] (those are other objects)
+
+
+class StaticRaise(Exception):
+    def __init__(self, term):
+        Exception.__init__(self, 'raises')
+        self.term = term
+
+
 class Unsupported(Exception):
     def __init__(self, msg, node=None):
         self.node = node
         line = getattr(node, 'lineno', None)
         Exception.__init__(self, msg + (' (line %s)' % line if line else ''))
+
+
+class Refused(Unsupported):
+    """the construct is understood, but the summary made here would not be faithful to it (a nested function sharing state that
+    changes with its enclosing function): a function using it cannot be shown to be the specified computation"""
 
 
 class NotConcrete(Exception):
@@ -1183,7 +1200,15 @@ def get_attr(obj, name):
     if obj[0] == 'ite':
         a, b = get_attr(obj[2], name), get_attr(obj[3], name)
         return mk_ite(obj[1], a, b)
+    if obj[0] == 'mut' and PURITY is not None and type(obj[1]) is str:
+        # a call that may write its receiver, but provably not this attribute (sa/purity.py): the attribute is the one from before
+        aw = PURITY.attrs_written(obj[1])
+        if aw is not None and name not in aw:
+            return get_attr(obj[2], name)
     return ('attr', obj, name)
+
+
+PURITY = None        # sa.purity.Purity of the tree under analysis (set by core.Ctx)
 
 
 def set_attr(obj, name, val):
@@ -1273,6 +1298,16 @@ class PE:
         self.nloops = 0
         self.aliases = {}          # local name -> (attribute path, place AST): the name is a view of that place
         self.inplace_updated = set()
+        self.num_names = frozenset()
+        self.no_mark = 0           # > 0 inside lambda / comprehension bodies: their calls run elsewhere / are accounted as a whole
+        self.local_writers = {}
+        self.cur_fdef = None
+        self.fresh_names = set()
+        self.bind_count = {}       # name -> number of binding sites in the function being summarised (nested functions excluded)
+        self.inplace_updated_objs = set()
+        self.obj_writes = {}
+        self.purity = None         # sa.purity.Purity of the tree under analysis (set by core.Ctx.pe)
+        self.spec_depth = 0        # > 0 while evaluating something that may never be evaluated (later operands of and/or, lambda bodies, ..)
         self.loop_stack = []       # (loop id, environment at the start of the body, names the body assigns) of the loops being summarised
         self.loop_W = {}           # (loop id, rank) -> (attributes the loop stores on that carried object, its initial term)
         self.branch_depth = 0
@@ -1406,7 +1441,22 @@ class PE:
 
     def ev_BoolOp(self, n, env):
         op = 'and' if isinstance(n.op, ast.And) else 'or'
-        return mk_bool(op, [self.ev(v, env) for v in n.values])
+        vals = [self.ev(n.values[0], env)]
+        self.spec_depth += 1          # the other operands may not be evaluated at all
+        try:
+            for v in n.values[1:]:
+                e2 = dict(env)
+                vals.append(self.ev(v, e2))
+                if e2 != env:
+                    # the operand ran only if everything before it was true (and) / false (or)
+                    c_ = mk_bool(op, list(vals[:-1]))
+                    if op == 'and':
+                        self.merge_envs(c_, e2, dict(env), env)
+                    else:
+                        self.merge_envs(c_, dict(env), e2, env)
+        finally:
+            self.spec_depth -= 1
+        return mk_bool(op, vals)
 
     def ev_Compare(self, n, env):
         left = self.ev(n.left, env)
@@ -1426,7 +1476,16 @@ class PE:
             return self.ev(n.body, env)
         if tv is False:
             return self.ev(n.orelse, env)
-        return mk_ite(c, self.ev(n.body, env), self.ev(n.orelse, env))
+        self.spec_depth += 1
+        try:
+            # each arm runs on its own copy of the environment (a call that may write its receiver is made on one side only)
+            ea, eb = dict(env), dict(env)
+            va, vb = self.ev(n.body, ea), self.ev(n.orelse, eb)
+            if ea != env or eb != env:
+                self.merge_envs(c, ea, eb, env)
+            return mk_ite(c, va, vb)
+        finally:
+            self.spec_depth -= 1
 
     def ev_Attribute(self, n, env):
         return self.attr_of(self.ev(n.value, env), n.attr)
@@ -1441,7 +1500,23 @@ class PE:
     def ev_Subscript(self, n, env):
         base = self.ev(n.value, env)
         idx = self.ev(n.slice, env)
+        self.bounds(base, idx)
         return get_idx(base, idx)
+
+    def bounds(self, base, idx):
+        """a constant index outside a sequence of known length: the statement raises IndexError (where it is certainly evaluated)"""
+        if self.spec_depth or not (is_int(idx) and type(idx[1]) is int):
+            return
+        b = base
+        while b[0] == 'hoist':
+            b = b[1]
+        n_ = None
+        if b[0] in ('list', 'tuple') and not any(x[0] == 'star' for x in b[1]):
+            n_ = len(b[1])
+        elif is_c(b) and isinstance(b[1], (bytes, str, list, tuple)):
+            n_ = len(b[1])
+        if n_ is not None and not (-n_ <= idx[1] < n_):
+            raise StaticRaise(('call', ('b', 'IndexError'), (), ()))
 
     def ev_Starred(self, n, env):
         return ('star', self.ev(n.value, env))
@@ -1468,12 +1543,22 @@ class PE:
         return ('fmt', self.ev(n.value, env), C(spec), conv)
 
     def ev_Lambda(self, n, env):
+        self._check_closure(n)
         return self.make_lambda(n.args, n.body, env, n)
 
     def make_lambda(self, args, body, env, node):
         if args.vararg or args.kwarg or args.kwonlyargs:
             raise Unsupported('lambda signature', node)
         self.lam_depth += 1
+        self.spec_depth += 1
+        self.no_mark += 1
+        try:
+            return self._make_lambda(args, body, env, node)
+        finally:
+            self.spec_depth -= 1
+            self.no_mark -= 1
+
+    def _make_lambda(self, args, body, env, node):
         d = self.lam_depth
         env2 = dict(env)
         names = [a.arg for a in args.args]
@@ -1507,7 +1592,7 @@ class PE:
             g = gens[gi]
             if g.is_async:
                 raise Unsupported('async comp', n)
-            it = self.ev(g.iter, env)
+            it = it0 if gi == 0 else self.ev(g.iter, env)
             items = iter_items(it)
             if items is None or len(items) > MAX_UNROLL:
                 raise NotConcrete('iter')
@@ -1526,13 +1611,24 @@ class PE:
                 if ok:
                     out.extend(rec(gi + 1, env2))
             return out
+        it0 = self.ev(gens[0].iter, env)      # evaluated once, in the enclosing scope
+        self.no_mark += 1
         try:
-            return rec(0, env)
-        except NotConcrete:
-            pass
-        # symbolic comprehension (the first iterable is evaluated in the enclosing scope)
-        it0 = self.ev(gens[0].iter, env)
-        self.lam_depth += 1
+            try:
+                return rec(0, env)
+            except NotConcrete:
+                pass
+            # symbolic comprehension
+            self.lam_depth += 1
+            self.spec_depth += 1
+            try:
+                return self._comp_symbolic(n, env, kind, elt_fn, gens, it0)
+            finally:
+                self.spec_depth -= 1
+        finally:
+            self.no_mark -= 1
+
+    def _comp_symbolic(self, n, env, kind, elt_fn, gens, it0):
         d = self.lam_depth
         try:
             env2 = dict(env)
@@ -1569,17 +1665,50 @@ class PE:
             return wrap(r)
         return r[1]
 
+    def _comp_writes(self, n, env, res):
+        """[o.step(x) for x in xs]: the comprehension's calls may write objects of the enclosing scope; afterwards those are
+        mut('comp', before, <the comprehension>)"""
+        bound = set()
+        for g in n.generators:
+            for x in ast.walk(g.target):
+                if isinstance(x, ast.Name):
+                    bound.add(x.id)
+        roots = []
+        parts = [getattr(n, 'elt', None), getattr(n, 'key', None), getattr(n, 'value', None)]
+        for k_, g in enumerate(n.generators):
+            parts += list(g.ifs) + ([g.iter] if k_ else [])        # the first iterable is evaluated (and accounted) outside
+        for x in (y for p_ in parts if p_ is not None for y in ast.walk(p_)):
+            if isinstance(x, ast.Call):
+                tg = None
+                if isinstance(x.func, ast.Attribute) and (x.func.attr in MUTATORS or self._writing(x.func.attr)) \
+                        and not self._is_module_name(x.func.value, env):
+                    tg = x.func.value
+                    while isinstance(tg, (ast.Attribute, ast.Subscript)):
+                        tg = tg.value
+                    if isinstance(tg, ast.Name) and tg.id not in bound and tg.id in env and tg.id not in roots:
+                        roots.append(tg.id)
+                for r_ in self._written_args(x):
+                    if r_ not in bound and r_ in env and r_ not in roots:
+                        roots.append(r_)
+        for v in roots:
+            nm = ast.Name(id=v, ctx=ast.Load())
+            cur = self.ev(nm, env)
+            if cur[0] in ('g', 'b'):
+                continue
+            self.store(nm, ('mut', 'comp', cur, (self._args_sans(cur, (res,))[0],)), env, True)
+        return res
+
     def ev_ListComp(self, n, env):
         r = self.comp(n, env, 'list', lambda e: self.ev(n.elt, e))
-        return self._comp_result(r, lambda items: ('list', tuple(items)))
+        return self._comp_writes(n, env, self._comp_result(r, lambda items: ('list', tuple(items))))
 
     def ev_GeneratorExp(self, n, env):
         r = self.comp(n, env, 'list', lambda e: self.ev(n.elt, e))
-        return self._comp_result(r, lambda items: ('list', tuple(items)))
+        return self._comp_writes(n, env, self._comp_result(r, lambda items: ('list', tuple(items))))
 
     def ev_SetComp(self, n, env):
         r = self.comp(n, env, 'set', lambda e: self.ev(n.elt, e))
-        return self._comp_result(r, lambda items: ('set', tuple(sorted(set(items), key=skey))))
+        return self._comp_writes(n, env, self._comp_result(r, lambda items: ('set', tuple(sorted(set(items), key=skey)))))
 
     def ev_DictComp(self, n, env):
         r = self.comp(n, env, 'dict', lambda e: ('tuple', (self.ev(n.key, e), self.ev(n.value, e))))
@@ -1627,7 +1756,57 @@ class PE:
             else:
                 kw.append(('kw', k.arg, self.ev(k.value, env)))
         kw = tuple(sorted(kw, key=lambda x: x[1]))
-        return self.call(f, args, kw, env, n)
+        if isinstance(fnode, ast.Attribute) and f[0] == 'attr' and f[2] == fnode.attr and self.is_place(fnode.value):
+            # the arguments were evaluated after the receiver expression, but the method runs on the object as the arguments left it
+            f2 = self.ev(fnode, env)
+            if f2[0] == 'attr' and f2[2] == fnode.attr:
+                f = f2
+                recv = self.ev(fnode.value, env)
+                if recv != f[1] and recv[0] in ('obj', 'upd', 'mut'):
+                    f = ('attr', recv, fnode.attr)
+        res = self.call(f, args, kw, env, n)
+        pur = self.purity
+        if pur is not None and res[0] == 'call' and not self.no_mark:
+            # a call that may change its receiver / an argument stays in sequence: the place now holds mut(name, old, args),
+            # so that what is read or called afterwards is a different object term (see sa/purity.py)
+            g_ = res[1]
+            if isinstance(fnode, ast.Attribute) and g_[0] == 'attr' and g_[2] == fnode.attr and self.is_place(fnode.value) \
+                    and pur.is_writing(fnode.attr) and not self._is_module_name(fnode.value, env):
+                cur_ = self.ev(fnode.value, env)
+                self.store(fnode.value, ('mut', fnode.attr, cur_, self._args_sans(cur_, tuple(args) + tuple(kw))), env, True)
+            if isinstance(fnode, ast.Name) and fnode.id in self.local_writers:
+                for v_ in self.local_writers[fnode.id]:
+                    if v_ in env:
+                        nm_ = ast.Name(id=v_, ctx=ast.Load())
+                        cur_ = self.ev(nm_, env)
+                        self.store(nm_, ('mut', 'closure:' + fnode.id, cur_, self._args_sans(cur_, tuple(args) + tuple(kw))), env, True)
+            if g_ == ('b', 'next') and n.args and self.is_place(n.args[0]):
+                cur_ = self.ev(n.args[0], env)
+                self.store(n.args[0], ('mut', 'next', cur_, ()), env, True)
+            name_ = fnode.attr if isinstance(fnode, ast.Attribute) else (fnode.id if isinstance(fnode, ast.Name) else None)
+            if name_ is not None and g_[0] in ('attr', 'g'):
+                for i_ in pur.params_written(name_):
+                    if i_ < len(n.args) and self.is_place(n.args[i_]) and not isinstance(n.args[i_], ast.Starred):
+                        cur_ = self.ev(n.args[i_], env)
+                        if not is_c(cur_) and kind_of(cur_) != 'num':
+                            rest_ = tuple(args[:i_]) + (('recv',),) + tuple(args[i_ + 1:]) + tuple(kw)
+                            self.store(n.args[i_], ('mut', 'arg%d:%s' % (i_, name_), cur_, self._args_sans(cur_, rest_)), env, True)
+        return res
+
+    def _args_sans(self, cur, args):
+        """the arguments recorded with a writing call, with the written object itself abbreviated (keeps the record linear in
+        the number of calls: f(state, state.x) repeated n times would otherwise nest the whole history twice per call)"""
+        if cur[0] in ('arg', 'c', 'g', 'b', 'phi', 'it'):
+            return args
+        if not any(x is cur or x == cur for a in args for x in walk(a)):
+            return args
+        return substitute(args, {cur: ('recv',)}, self.opts)
+
+    def _is_module_name(self, n, env):
+        """struct.pack / operator.xor / self.__class__: the `receiver` is a module or class, not an object with state"""
+        if isinstance(n, ast.Name) and n.id not in env:
+            return self.ev(n, env)[0] in ('g', 'b')
+        return False
 
     def is_place(self, n):
         if isinstance(n, ast.Name):
@@ -1779,8 +1958,6 @@ class PE:
         if f[0] == 'b' and f[1] == 'reversed' and len(args) == 1 and not kw and args[0][0] != 'range' \
                 and canon_seq(args[0], self.opts) is not None and iter_items(args[0]) is None:
             return get_idx(args[0], REV)                      # reversed(x) of an indexable value is x[::-1]
-        if f[0] == 'b' and f[1] == 'iter' and len(args) == 1 and not kw and canon_seq(args[0], self.opts) is not None:
-            return args[0]                                    # iter(x) of an indexable value, consumed by a loop
         if f[0] == 'b' and f[1] == 'int' and len(args) == 1 and not kw and args[0][0] in ('cmp', 'not', 'and', 'or'):
             return mk_ite(args[0], C(1), C(0))                # int(condition)
         if f[0] == 'b' and f[1] == 'divmod' and len(args) == 2 and not kw and is_int(args[1]) and type(args[1][1]) is int \
@@ -1985,6 +2162,8 @@ class PE:
     def bind_target(self, tgt, val, env):
         if isinstance(tgt, ast.Name):
             self.aliases.pop(tgt.id, None)
+            if self.aliases:
+                self._drop_aliases_under((tgt.id,), env)      # names viewing the object this name held keep that object
             env[tgt.id] = val
         elif isinstance(tgt, (ast.Tuple, ast.List)):
             n = len(tgt.elts)
@@ -2015,6 +2194,8 @@ class PE:
                 return
             if al is not None:
                 del self.aliases[tgt.id]
+            if not update and self.aliases:
+                self._drop_aliases_under((tgt.id,), env)
             env[tgt.id] = val
         elif isinstance(tgt, ast.Attribute):
             if not update:
@@ -2030,6 +2211,7 @@ class PE:
         elif isinstance(tgt, ast.Subscript):
             base = self.ev(tgt.value, env)
             idx = self.ev(tgt.slice, env)
+            self.bounds(base, idx)
             newbase = set_idx(base, idx, val)
             if self.is_place(tgt.value):
                 self.store(tgt.value, newbase, env, True)
@@ -2044,7 +2226,11 @@ class PE:
         """Returns True if the block definitely terminates (return/raise/break/continue)."""
         for i, s in enumerate(stmts):
             self.cur_effects = effects
-            t = self.exec_stmt(s, env, effects, stmts[i + 1:])
+            try:
+                t = self.exec_stmt(s, env, effects, stmts[i + 1:])
+            except StaticRaise as sr_:
+                effects.append(('exit', 'raise', sr_.term, self.roots_state(env)))
+                return True
             if t == 'consumed':   # an if-statement took the rest of the block into a branch
                 return self._last_term
             if t:
@@ -2064,6 +2250,8 @@ class PE:
         self.cur_effects = effects
         if isinstance(s, ast.Assign):
             v = self.ev(s.value, env)
+            if isinstance(s.value, ast.GeneratorExp) and v[0] != 'genexp' and any(isinstance(t_, ast.Name) for t_ in s.targets):
+                v = ('genexp', v)        # a NAMED generator can be consumed only once: not the same thing as the list
             for t in s.targets:
                 self.cur_effects = effects
                 self.bind_target(t, v, env) if isinstance(t, (ast.Name, ast.Tuple, ast.List)) else self.store(t, v, env)
@@ -2073,7 +2261,17 @@ class PE:
             elif len(s.targets) == 1 and isinstance(s.targets[0], ast.Tuple) and isinstance(s.value, ast.Tuple) \
                     and len(s.targets[0].elts) == len(s.value.elts):
                 pairs = [(t_, v_) for t_, v_ in zip(s.targets[0].elts, s.value.elts) if isinstance(t_, ast.Name)]
+            tnames_ = {t_.id for t_, _ in pairs}
             for t_, v_ in pairs:
+                if isinstance(v_, ast.Name):
+                    # y = x  and one of the two is later updated in place: both name the same (mutable) object
+                    if v_.id == t_.id or v_.id in tnames_ or v_.id not in env or not ({t_.id, v_.id} & self.inplace_updated):
+                        continue
+                    vt = env.get(t_.id)
+                    if vt is None or is_c(vt) or vt[0] in ('lam', 'g', 'b') or kind_of(vt) == 'num':
+                        continue
+                    self.aliases[t_.id] = self.aliases[v_.id] if v_.id in self.aliases else ((v_.id,), v_)
+                    continue
                 p_ = self._attr_path(v_)
                 if p_ is not None and t_.id in self.inplace_updated and p_[0] != t_.id and p_[0] in env and p_[0] not in self.aliases:
                     vt = env.get(t_.id)
@@ -2088,7 +2286,22 @@ class PE:
         if isinstance(s, ast.AugAssign):
             cur = self.ev(s.target, env)
             v = self.ev(s.value, env)
-            self.store(s.target, mk_bin(BIN[type(s.op)], cur, v, self.opts), env)
+            op_ = BIN[type(s.op)]
+            if isinstance(s.target, ast.Name) and op_ in ('+', '*', '|', '&', '-', '^'):
+                # x op= v updates a list / set / bytearray / dict IN PLACE (whoever else holds the object sees it) and rebinds
+                # anything else.  The value of x is the same either way; where the object can be shared and may be such a
+                # container, the statement is kept as an effect of its own, so that it is not the same as x = x op v.
+                viewed = tgt_viewed = False
+                if s.target.id in self.aliases:
+                    viewed = True
+                if any(q[0] == s.target.id for q, _ in self.aliases.values()):
+                    tgt_viewed = True
+                immut = kind_of(cur) == 'num' or is_c(cur) or is_bytes(cur) or cur[0] == 'tuple' or s.target.id in self.num_names \
+                    or (s.target.id in self.fresh_names and not viewed and not tgt_viewed) \
+                    or (op_ != '*' and (kind_of(v) == 'num' or (is_c(v) and not isinstance(v[1], (list, set, dict)))))
+                if not immut and (viewed or tgt_viewed or not owned_fresh(cur)):
+                    effects.append(('do', ('inplace', C(op_), cur, v), ()))
+            self.store(s.target, mk_bin(op_, cur, v, self.opts), env)
             return False
         if isinstance(s, ast.Expr):
             if isinstance(s.value, ast.Constant):
@@ -2354,6 +2567,30 @@ class PE:
                     return out
         return out
 
+    def _writing(self, name):
+        return self.purity is not None and self.purity.is_writing(name)
+
+    def _written_args(self, call):
+        if self.purity is None:
+            return []
+        f = call.func
+        name = f.attr if isinstance(f, ast.Attribute) else (f.id if isinstance(f, ast.Name) else None)
+        out = []
+        if name == 'next' and isinstance(f, ast.Name) and call.args:
+            r = call.args[0]
+            while isinstance(r, (ast.Attribute, ast.Subscript)):
+                r = r.value
+            if isinstance(r, ast.Name):
+                out.append(r.id)
+        for i in self.purity.params_written(name) if name else ():
+            if i < len(call.args):
+                r = call.args[i]
+                while isinstance(r, (ast.Attribute, ast.Subscript)):
+                    r = r.value
+                if isinstance(r, ast.Name):
+                    out.append(r.id)
+        return out
+
     def assigned_names(self, stmts):
         out = []
 
@@ -2390,9 +2627,14 @@ class PE:
                         tgt(n.target)
                 elif isinstance(n, ast.NamedExpr):
                     tgt(n.target)
-                elif isinstance(n, ast.Call) and isinstance(n.func, ast.Attribute) and n.func.attr in MUTATORS:
+                elif isinstance(n, ast.Call) and isinstance(n.func, ast.Attribute) and (n.func.attr in MUTATORS or self._writing(n.func.attr)):
                     r = root(n.func.value)
                     if r:
+                        out.append(r)
+                    for r in self._written_args(n):
+                        out.append(r)
+                elif isinstance(n, ast.Call) and isinstance(n.func, ast.Name):
+                    for r in self._written_args(n):
                         out.append(r)
                 elif isinstance(n, ast.FunctionDef):
                     out.append(n.name)
@@ -2427,6 +2669,9 @@ class PE:
 
     def exec_for(self, s, env, effects):
         it = self.ev(s.iter, env)
+        if it[0] == 'call' and it[1] == ('b', 'iter') and len(it[2]) == 1 and not it[3] and isinstance(s.iter, ast.Call) \
+                and canon_seq(it[2][0], self.opts) is not None:
+            it = it[2][0]            # for x in iter(seq): the iterator is not named, the loop is its only consumer
         items = iter_items(it) if self.unroll else None
         if items is None and it[0] in ('tuple', 'list') and len(it[1]) <= 8 and not self.has_jump(s.body) and not s.orelse:
             # a literal sequence of at most 8 elements: canonical form is the unrolled loop
@@ -2593,7 +2838,10 @@ class PE:
                     self.bind_pattern_syms(s.target, env2, itsym)
                 body_eff = []
                 self.loop_stack.append((L, dict(env2), list(assigned)))
+                nn_ = self.num_names
+                self.num_names = nn_ | set(ivs)          # counters (int start, constant step) are numbers
                 self.exec_block(s.body, env2, body_eff)
+                self.num_names = nn_
                 self.loop_stack.pop()
                 n_it = None
                 try:
@@ -2898,7 +3146,26 @@ class PE:
         for v, t_ in pending_folded.items():
             env[v] = t_
         if s.orelse:
-            self.exec_block(s.orelse, env, else_eff)
+            def own_break(n_):
+                if isinstance(n_, ast.Break):
+                    return True
+                if isinstance(n_, (ast.For, ast.While, ast.FunctionDef, ast.Lambda, ast.ClassDef)):
+                    return any(own_break(c_) for c_ in getattr(n_, 'orelse', []) ) if isinstance(n_, (ast.For, ast.While)) else False
+                return any(own_break(c_) for c_ in ast.iter_child_nodes(n_))
+            if any(own_break(st_) for st_ in s.body):
+                # the else clause runs only when the loop was not left by break: what it binds is conditional after the loop
+                env_e = dict(env)
+                al_e = dict(self.aliases)
+                t_e = self.exec_block(s.orelse, env_e, else_eff)
+                self.aliases = al_e
+                if not t_e:
+                    brk = ('broke', L)
+                    for v in sorted(set(env) | set(env_e)):
+                        a_, b_ = env.get(v, ('unbound', '?')), env_e.get(v, ('unbound', '?'))
+                        if a_ != b_:
+                            env[v] = mk_ite(brk, a_, b_)
+            else:
+                self.exec_block(s.orelse, env, else_eff)
         if kind == 'for':
             effects.append(('for', L, it, inits, nexts, tuple(body_eff), tuple(else_eff)))
         else:
@@ -2913,10 +3180,132 @@ class PE:
                     out[x] = get_attr(init2, x[2])
         return out
 
+    @staticmethod
+    def _fresh_names(fdef, params):
+        """local names that only ever hold objects made by this function (numbers, strings, displays, comprehensions, results of
+        operators and of plain function calls, slices) and that are never given a second name or put into a container: nobody
+        else can see such an object, so updating it in place and rebinding the name to the updated value are the same thing"""
+        def fresh(v):
+            if isinstance(v, (ast.Constant, ast.List, ast.Tuple, ast.Dict, ast.Set, ast.ListComp, ast.SetComp, ast.DictComp,
+                              ast.BinOp, ast.UnaryOp, ast.Compare, ast.JoinedStr, ast.BoolOp)) and not isinstance(v, ast.BoolOp):
+                return True
+            if isinstance(v, ast.Call) and isinstance(v.func, ast.Name):
+                return True          # plain functions and constructors hand out new (or immutable) objects
+            if isinstance(v, ast.Subscript) and isinstance(v.slice, ast.Slice):
+                return True
+            if isinstance(v, ast.IfExp):
+                return fresh(v.body) and fresh(v.orelse)
+            return False
+        good, bad = set(), set()
+
+        def visit(n, top=True):
+            for c in ast.iter_child_nodes(n):
+                if isinstance(c, (ast.FunctionDef, ast.Lambda, ast.ClassDef)):
+                    for x in ast.walk(c):
+                        if isinstance(x, ast.Name):
+                            bad.add(x.id)          # anything a nested function touches is not tracked
+                    continue
+                if isinstance(c, ast.Assign):
+                    for t in c.targets:
+                        if isinstance(t, ast.Name):
+                            (good if fresh(c.value) else bad).add(t.id)
+                        else:
+                            for x in ast.walk(t):
+                                if isinstance(x, ast.Name) and isinstance(x.ctx, ast.Store):
+                                    bad.add(x.id)
+                    # the value side: a bare name that is stored / aliased / put into a display escapes
+                    for x in Purity_ways(c.value):
+                        bad.add(x)
+                elif isinstance(c, (ast.For, ast.comprehension)):
+                    for x in ast.walk(c.target):
+                        if isinstance(x, ast.Name):
+                            bad.add(x.id)
+                elif isinstance(c, (ast.With, ast.ExceptHandler, ast.NamedExpr, ast.AnnAssign, ast.Global, ast.Nonlocal, ast.Import, ast.ImportFrom)):
+                    for x in ast.walk(c):
+                        if isinstance(x, ast.Name) and isinstance(x.ctx, ast.Store):
+                            bad.add(x.id)
+                        if isinstance(c, (ast.Global, ast.Nonlocal)):
+                            bad.update(c.names)
+                elif isinstance(c, (ast.Return, ast.Yield, ast.YieldFrom)) and c.value is not None:
+                    pass                   # handing the object out at the end is not a second name inside this function
+                elif isinstance(c, ast.Call):
+                    if isinstance(c.func, ast.Attribute) and c.func.attr in ('append', 'extend', 'insert', 'add', 'update', 'setdefault', 'push'):
+                        for a_ in c.args:
+                            for x in Purity_ways(a_):
+                                bad.add(x)         # container.append(x): the container now also holds x
+                visit(c, False)
+        visit(fdef)
+        return (good - bad) - set(params)
+
+    def _check_closure(self, fn):
+        """A nested function / lambda reads the variables of the enclosing function when it is CALLED.  The summary made here
+        uses their values at the definition, which is only right for variables that never change: refuse the others."""
+        params = {a.arg for a in fn.args.posonlyargs + fn.args.args + fn.args.kwonlyargs}
+        body = fn.body if isinstance(fn.body, list) else [fn.body]
+        bound, free = set(params), set()
+        for st in body:
+            for n in ast.walk(st):
+                if isinstance(n, ast.Name):
+                    (bound if isinstance(n.ctx, (ast.Store, ast.Del)) else free).add(n.id)
+                elif isinstance(n, ast.arg):
+                    bound.add(n.arg)
+        for v in sorted(free - bound):
+            if self.bind_count.get(v, 0) > 1:
+                raise Refused('closure over %r, which the enclosing function rebinds' % v, fn)
+            if v in self.inplace_updated_objs:
+                # the object is updated in place by the enclosing function: fine when the nested function only reads attributes
+                # that are never stored there
+                w_ = self.obj_writes.get(v, {'*'})
+                reads_ = set()
+                for st in body:
+                    for n in ast.walk(st):
+                        if isinstance(n, ast.Attribute) and isinstance(n.value, ast.Name) and n.value.id == v:
+                            reads_.add(n.attr)
+                    nbare_ = sum(1 for n in ast.walk(st) if isinstance(n, ast.Name) and n.id == v)
+                    nattr_ = sum(1 for n in ast.walk(st) if isinstance(n, ast.Attribute) and isinstance(n.value, ast.Name) and n.value.id == v)
+                    if nbare_ != nattr_:
+                        reads_.add('*')
+                if '*' in w_ or '*' in reads_ or (reads_ & w_):
+                    raise Refused('closure over %r, which the enclosing function updates in place' % v, fn)
+        cw = self._captured_writes(fn)
+        if cw:
+            raise Refused('nested function updates %s of the enclosing function' % ', '.join(cw), fn)
+
+    def _captured_writes(self, fn):
+        """names of the enclosing scope that the nested function / lambda updates in place (x.append, x[i] = .., x.a = .., writing calls)"""
+        params = {a.arg for a in fn.args.posonlyargs + fn.args.args + fn.args.kwonlyargs}
+        if fn.args.vararg:
+            params.add(fn.args.vararg.arg)
+        if fn.args.kwarg:
+            params.add(fn.args.kwarg.arg)
+        body = fn.body if isinstance(fn.body, list) else [ast.Expr(value=fn.body)]
+        bound, upd = set(), set()
+        for st in body:
+            for n in ast.walk(st):
+                if isinstance(n, ast.Name) and isinstance(n.ctx, (ast.Store, ast.Del)):
+                    bound.add(n.id)
+                elif isinstance(n, ast.Nonlocal):
+                    raise Unsupported('nonlocal', n)
+                tg = None
+                if isinstance(n, (ast.Subscript, ast.Attribute)) and isinstance(n.ctx, (ast.Store, ast.Del)):
+                    tg = n.value
+                elif isinstance(n, ast.Call) and isinstance(n.func, ast.Attribute) and (n.func.attr in MUTATORS or self._writing(n.func.attr)):
+                    tg = n.func.value
+                while isinstance(tg, (ast.Subscript, ast.Attribute)):
+                    tg = tg.value
+                if isinstance(tg, ast.Name):
+                    upd.add(tg.id)
+                if isinstance(n, ast.Call):
+                    upd.update(self._written_args(n))
+                    if isinstance(n.func, ast.Name) and n.func.id in self.local_writers:
+                        upd.update(self.local_writers[n.func.id])
+        return sorted(upd - params - bound)
+
     def exec_funcdef(self, s, env, effects):
         if self.module_mode:
             env[s.name] = ('g', s.name)
             return False
+        self._check_closure(s)
         body = [x for x in s.body if not (isinstance(x, ast.Expr) and isinstance(x.value, ast.Constant))]
         if len(body) == 1 and isinstance(body[0], ast.Return) and body[0].value is not None and not s.decorator_list \
                 and not s.args.vararg and not s.args.kwarg and not s.args.kwonlyargs \
@@ -2929,6 +3318,7 @@ class PE:
         sub = PE(self.resolve_global, self.global_values, self.unroll, self.opts, self.inline, self.call_hook)
         sub.closures = self.closures + [env]
         sub.lam_depth = self.lam_depth + 20
+        sub.purity = self.purity
         sm = sub.run_function(s)
         k = len(self.sm.funcs)
         self.sm.funcs.append(sm)
@@ -2943,7 +3333,24 @@ class PE:
         pre = dict(env)
         eb = dict(env)
         fb = []
-        tb = self.exec_block(s.body, eb, fb)
+        # a handler may run after any prefix of the body: the order in which the body binds names (relative to what may
+        # raise) is part of the statement, so the bindings made by each body statement are recorded in order
+        trace = []
+        tb = False
+        inside_ = {id(x_) for st_ in s.body for x_ in ast.walk(st_)}
+        seen_outside_ = {x_.id for x_ in ast.walk(self.cur_fdef) if isinstance(x_, ast.Name) and id(x_) not in inside_} \
+            if self.cur_fdef is not None else None
+        for i_, st_ in enumerate(s.body):
+            before_ = dict(eb)
+            nfb_ = len(fb)
+            tb = self.exec_block([st_], eb, fb)
+            delta_ = tuple(sorted(((k_, v_) for k_, v_ in eb.items() if before_.get(k_) != v_
+                                   and (seen_outside_ is None or k_ in seen_outside_)),       # names nobody outside the body mentions are its own
+                                  key=lambda kv: skey(kv[1])))
+            if delta_:
+                trace.append(('bind', tuple(v_ for _, v_ in delta_), C(nfb_)))       # what is bound, after how many effects
+            if tb:
+                break
         if not tb and s.orelse:
             tb = self.exec_block(s.orelse, eb, fb)
         branches = [(None, eb, fb, tb)]
@@ -2973,6 +3380,8 @@ class PE:
             for k in list(env):
                 if k not in keys:
                     del env[k]
+        if s.handlers and trace:
+            fb = fb + [('trace', tuple(trace))]
         effects.append(('try', T, tuple(fb), tuple((b[0], tuple(b[2])) for b in branches[1:])))
         term = not live
         if s.finalbody:
@@ -3033,7 +3442,7 @@ class PE:
             tg_ = None
             if isinstance(n_, (ast.Subscript, ast.Attribute)) and isinstance(n_.ctx, (ast.Store, ast.Del)):
                 tg_ = n_.value
-            elif isinstance(n_, ast.Call) and isinstance(n_.func, ast.Attribute) and n_.func.attr in MUTATORS:
+            elif isinstance(n_, ast.Call) and isinstance(n_.func, ast.Attribute) and (n_.func.attr in MUTATORS or self._writing(n_.func.attr)):
                 tg_ = n_.func.value
             while isinstance(tg_, ast.Subscript):
                 tg_ = tg_.value
@@ -3041,6 +3450,55 @@ class PE:
                 self.inplace_updated.add(tg_.id)
             if isinstance(n_, ast.Call) and isinstance(n_.func, ast.Name):
                 self.inplace_updated.add(n_.func.id)       # a local that is called: m = self.method keeps naming that method
+            if isinstance(n_, ast.Call):
+                self.inplace_updated.update(self._written_args(n_))
+            if isinstance(n_, ast.AugAssign) and isinstance(n_.target, ast.Name) and isinstance(n_.op, (ast.Add, ast.Mult, ast.BitOr, ast.BitAnd, ast.Sub, ast.BitXor)):
+                self.inplace_updated.add(n_.target.id)       # x += [..] extends the list x names, for every name of that list
+        self.bind_count = {}
+        self.inplace_updated_objs = set()
+        self.obj_writes = {}
+        self.cur_fdef = fdef
+
+        def count_(n_, top=True):
+            for c_ in ast.iter_child_nodes(n_):
+                if isinstance(c_, (ast.FunctionDef, ast.Lambda, ast.ClassDef)):
+                    if isinstance(c_, ast.FunctionDef):
+                        self.bind_count[c_.name] = self.bind_count.get(c_.name, 0) + 1
+                    continue
+                if isinstance(c_, ast.Name) and isinstance(c_.ctx, (ast.Store, ast.Del)):
+                    self.bind_count[c_.id] = self.bind_count.get(c_.id, 0) + 1
+                if isinstance(c_, (ast.For, ast.While, ast.comprehension)):
+                    for x_ in ast.walk(c_):      # bound again on every iteration
+                        if isinstance(x_, ast.Name) and isinstance(x_.ctx, ast.Store):
+                            self.bind_count[x_.id] = self.bind_count.get(x_.id, 0) + 1
+                tg_ = None
+                if isinstance(c_, (ast.Subscript, ast.Attribute)) and isinstance(c_.ctx, (ast.Store, ast.Del)):
+                    tg_ = c_.value
+                elif isinstance(c_, ast.Call) and isinstance(c_.func, ast.Attribute) and (c_.func.attr in MUTATORS or self._writing(c_.func.attr)):
+                    tg_ = c_.func.value
+                first_ = None
+                while isinstance(tg_, (ast.Subscript, ast.Attribute)):
+                    first_ = tg_.attr if isinstance(tg_, ast.Attribute) else (None if isinstance(tg_.value, ast.Name) else first_)
+                    tg_ = tg_.value
+                if isinstance(tg_, ast.Name):
+                    self.inplace_updated_objs.add(tg_.id)
+                    ws_ = self.obj_writes.setdefault(tg_.id, set())
+                    if isinstance(c_, ast.Call) and first_ is None:
+                        aw_ = self.purity.attrs_written(c_.func.attr) if self.purity is not None else None
+                        ws_.update(aw_ if aw_ is not None else {'*'})
+                    elif isinstance(c_, ast.Attribute) and first_ is None:
+                        ws_.add(c_.attr)
+                    else:
+                        ws_.add(first_ if first_ is not None else '*')
+                if isinstance(c_, ast.Call):
+                    for r_ in self._written_args(c_):
+                        self.inplace_updated_objs.add(r_)
+                        self.obj_writes.setdefault(r_, set()).add('*')
+                count_(c_, False)
+        count_(fdef)
+        self.fresh_names = self._fresh_names(fdef, set(names))
+        for a_ in names:
+            self.bind_count[a_] = self.bind_count.get(a_, 0) + 1
         effects = self.sm.effects
         t = self.exec_block(fdef.body, env, effects)
         if not t:
